@@ -78,6 +78,8 @@ pub struct Profile {
     /// `let p = &buf;`). Such a mention is not a use for naga/wgpu, so the visibility properties keep
     /// this off; it exists for differential properties (C17).
     pub phony_refs: u32,
+    /// chance (n/8) that module-scope declarations are emitted in a permuted order
+    pub shuffle_items: u32,
 }
 
 impl Profile {
@@ -114,6 +116,7 @@ impl Profile {
             vin_as_storage: 0,
             out_as_storage: 0,
             phony_refs: 0,
+            shuffle_items: 3,
         }
     }
 }
@@ -1175,6 +1178,9 @@ pub fn gen_shader(ch: &mut Ch, p: &Profile) -> Shader {
                 sh.global_order.push(sh.globals.len() - 1);
             }
         }
+    }
+    if ch.chance(p.shuffle_items, 8) {
+        sh.item_shuffle = (ch.raw() as u64) << 1 | 1;
     }
     if p.use_all_resources && !sh.entries.is_empty() {
         let reached: std::collections::BTreeSet<usize> = crate::expect::entry_reach(&sh).into_iter().flatten().collect();
